@@ -171,9 +171,9 @@ STEPS = [None, 1, 2, 3, -1, -2, -3, 7, -7, 100, -100, 0]
 
 
 def generate(rng, tier):
-    mult = 1 if tier == 'quick' else 4
+    mult = 1 if tier == 'quick' else 3
     cases = []
-    small = small_objects(rng, 40 * mult)
+    small = small_objects(rng, 90 * mult)
     big = big_objects(rng)
     # ---- iteration, len, integer index on small objects
     for o in small:
@@ -193,8 +193,8 @@ def generate(rng, tier):
         n = hi - lo + 1
         vals = _slice_vals(n)
         grid = [(a, b, c) for a in vals for b in vals for c in STEPS]
-        if k >= 3 * mult:
-            grid = rng.sample(grid, 150)
+        if k >= 10 * mult:
+            grid = rng.sample(grid, 250)
         for a, b, c in grid:
             cases.append(c_slice(o, a, b, c))
         for _ in range(20):
